@@ -180,12 +180,13 @@ static int do_replay(const char *path) {
 }
 
 // ---- exhaustive: 2 creators of one key on 2 threads, n_A, n_B in 0..nmax; each thread: CREATE, then its n uses and its
-// ADDTO in every order; the uses are those of its own creator ("own") or of the other thread's creator ("cross");
+// ADDTO in every order; the uses are those of its own creator ("own") or of the other thread's creator ("cross", n <= crossmax);
 // a trailing LOOKUP in thread 0 when n_A == n_B; every schedule with <= pb preemptions
-static int do_exh(int nmax, int pb, int part, int nparts) {
+static int do_exh(int nmax, int pb, int part, int nparts, int crossmax) {
     uint64_t execs = 0; bool truncated = false; long idx = 0, programs = 0;
     for (int cross = 0; cross < 2; cross++) for (int nA = 0; nA <= nmax; nA++) for (int nB = 0; nB <= nmax; nB++)
     {
+        if (cross && (nA > crossmax || nB > crossmax)) continue;
         int look = nA == nB;
         int u0 = cross ? nB : nA, u1 = cross ? nA : nB;          // number of USE actions in thread 0 / 1
         for (int pa = 0; pa <= u0; pa++) for (int pbb = 0; pbb <= u1; pbb++) {
@@ -272,7 +273,7 @@ int main(int argc, char **argv) {
         if (txt.rfind("C25-stress", 0) == 0) { int T; long it; unsigned sd; sscanf(txt.c_str(), "C25-stress threads %d rounds %ld seed %u", &T, &it, &sd); int r = 0; for (int k = 0; k < 3 && !r; k++) r = do_stress(T, it, sd); printf(r ? "REPLAY-FAIL stress\n" : "REPLAY-PASS\n"); fflush(stdout); _exit(r); }
         int r = do_replay(argv[2]); fflush(stdout); _exit(r);
     }
-    if (mode == "exh") _exit(do_exh(atoi(argv[2]), atoi(argv[3]), atoi(argv[4]), atoi(argv[5])));
+    if (mode == "exh") _exit(do_exh(atoi(argv[2]), atoi(argv[3]), atoi(argv[4]), atoi(argv[5]), argc > 6 ? atoi(argv[6]) : atoi(argv[2])));
     if (mode == "stress") _exit(do_stress(atoi(argv[2]), atol(argv[3]), (unsigned)atoi(argv[4])));
     bool ok = rc::check("data repository histories are linearizable w.r.t. the exact-reclamation model", []() {
         Case c;
